@@ -31,7 +31,7 @@ QUICK_SPACES = ('rn2x2', 'pw_rn2_2_c', 'rn3', 'ud3', 'rn3w2', 'rn3wa', 'pw_rn2_2
 DER_BASES = ['L1Norm', 'L2NormSquared', 'L2Norm', 'KullbackLeibler', 'IndicatorBox', 'Huber',
              'IndicatorLpUnitBall', 'KullbackLeiblerCrossEntropy']
 DER_KINDS = ['translated', 'leftscal', 'leftscal_half', 'rightscal', 'rightscal_neg', 'rightscal0', 'quadpert',
-             'quadpert_a0', 'quadpert_nou', 'scalarsum', 'bregman']
+             'quadpert_a0', 'quadpert_nou', 'quadpert_c', 'scalarsum', 'bregman']
 ELEM_SIGMA = ('L1Norm', 'L2NormSquared')      # documented per-point step sizes
 _SIG = [0.5, 2.0, 1.0, 0.25, 4.0, 1.0, 0.5, 2.0]
 SCALES = [1.0, 2.0 ** -3, 2.0 ** -7, 2.0 ** -12]
